@@ -48,21 +48,25 @@ TIERS = {
 FLOORS = {
     "quick": {
         "programs": 1000,
-        "compared": 2500,
-        "distinct_nontrivial": 400,
-        "vectors_executed": 1200,
-        "events_compared": 30000,
-        "loops_executed_ub_not_multiple_of_step": 1500,
-        "uses_of_alloc_compared": 1500,
+        "compared": 4000,
+        "distinct_nontrivial": 1200,
+        "vectors_executed": 2500,
+        "events_compared": 200000,
+        "loops_executed_ub_not_multiple_of_step": 12000,
+        "uses_of_alloc_compared": 60000,
+        "compared:pipeline-canonicalize-for": 1800,
+        "compared:reuse-memref-allocs": 2200,
     },
     "thorough": {
         "programs": 30000,
-        "compared": 75000,
-        "distinct_nontrivial": 8000,
-        "vectors_executed": 36000,
-        "events_compared": 900000,
-        "loops_executed_ub_not_multiple_of_step": 45000,
-        "uses_of_alloc_compared": 45000,
+        "compared": 120000,
+        "distinct_nontrivial": 30000,
+        "vectors_executed": 75000,
+        "events_compared": 6000000,
+        "loops_executed_ub_not_multiple_of_step": 360000,
+        "uses_of_alloc_compared": 1800000,
+        "compared:pipeline-canonicalize-for": 54000,
+        "compared:reuse-memref-allocs": 66000,
     },
 }
 
